@@ -35,11 +35,21 @@ type ctxt struct {
 }
 
 var contexts = []ctxt{
-	{"for-arrow", func(r string) string { return "for i <- " + r + " {\n\tfmt.Print(i, \",\")\n\tif guard++; guard > 12 {\n\t\tfmt.Print(\"...\")\n\t\tbreak\n\t}\n}" }, nil},
-	{"for-in", func(r string) string { return "for i in " + r + " {\n\tfmt.Print(i, \",\")\n\tif guard++; guard > 12 {\n\t\tfmt.Print(\"...\")\n\t\tbreak\n\t}\n}" }, nil},
-	{"for-range-define", func(r string) string { return "for i := range " + r + " {\n\tfmt.Print(i, \",\")\n\tif guard++; guard > 12 {\n\t\tfmt.Print(\"...\")\n\t\tbreak\n\t}\n}" }, nil},
-	{"for-range-assign", func(r string) string { return "var j int\nfor j = range " + r + " {\n\tfmt.Print(j, \",\")\n\tif guard++; guard > 12 {\n\t\tfmt.Print(\"...\")\n\t\tbreak\n\t}\n}" }, nil},
-	{"for-arrow-if", func(r string) string { return "for i <- " + r + " if even(i) {\n\tfmt.Print(i, \",\")\n\tif guard++; guard > 12 {\n\t\tfmt.Print(\"...\")\n\t\tbreak\n\t}\n}" }, func(s []int) []int {
+	{"for-arrow", func(r string) string {
+		return "for i <- " + r + " {\n\tfmt.Print(i, \",\")\n\tif guard++; guard > 12 {\n\t\tfmt.Print(\"...\")\n\t\tbreak\n\t}\n}"
+	}, nil},
+	{"for-in", func(r string) string {
+		return "for i in " + r + " {\n\tfmt.Print(i, \",\")\n\tif guard++; guard > 12 {\n\t\tfmt.Print(\"...\")\n\t\tbreak\n\t}\n}"
+	}, nil},
+	{"for-range-define", func(r string) string {
+		return "for i := range " + r + " {\n\tfmt.Print(i, \",\")\n\tif guard++; guard > 12 {\n\t\tfmt.Print(\"...\")\n\t\tbreak\n\t}\n}"
+	}, nil},
+	{"for-range-assign", func(r string) string {
+		return "var j int\nfor j = range " + r + " {\n\tfmt.Print(j, \",\")\n\tif guard++; guard > 12 {\n\t\tfmt.Print(\"...\")\n\t\tbreak\n\t}\n}"
+	}, nil},
+	{"for-arrow-if", func(r string) string {
+		return "for i <- " + r + " if even(i) {\n\tfmt.Print(i, \",\")\n\tif guard++; guard > 12 {\n\t\tfmt.Print(\"...\")\n\t\tbreak\n\t}\n}"
+	}, func(s []int) []int {
 		var o []int
 		for _, v := range s {
 			if v%2 == 0 {
@@ -48,8 +58,12 @@ var contexts = []ctxt{
 		}
 		return o
 	}},
-	{"list-comprehension", func(r string) string { return "for _, i := range [i for i <- " + r + "] {\n\tfmt.Print(i, \",\")\n\tif guard++; guard > 12 {\n\t\tfmt.Print(\"...\")\n\t\tbreak\n\t}\n}" }, nil},
-	{"comprehension-if", func(r string) string { return "for _, i := range [i for i <- " + r + " if even(i)] {\n\tfmt.Print(i, \",\")\n\tif guard++; guard > 12 {\n\t\tfmt.Print(\"...\")\n\t\tbreak\n\t}\n}" }, func(s []int) []int {
+	{"list-comprehension", func(r string) string {
+		return "for _, i := range [i for i <- " + r + "] {\n\tfmt.Print(i, \",\")\n\tif guard++; guard > 12 {\n\t\tfmt.Print(\"...\")\n\t\tbreak\n\t}\n}"
+	}, nil},
+	{"comprehension-if", func(r string) string {
+		return "for _, i := range [i for i <- " + r + " if even(i)] {\n\tfmt.Print(i, \",\")\n\tif guard++; guard > 12 {\n\t\tfmt.Print(\"...\")\n\t\tbreak\n\t}\n}"
+	}, func(s []int) []int {
 		var o []int
 		for _, v := range s {
 			if v%2 == 0 {
@@ -84,7 +98,7 @@ func want(seq []int) string {
 
 type Case struct {
 	Context string `json:"context"`
-	Form    string `json:"form"` // literal | variable | call
+	Form    string `json:"form"` // literal | variable | call | mix:xyz (start/end/step each l, v or s = stateful call)
 	Start   int    `json:"start"`
 	End     int    `json:"end"`
 	Step    int    `json:"step"`
@@ -131,6 +145,23 @@ func unitFor(k Case) progs.Unit {
 			decl = "id := func(v int) int { return v }\n"
 			w = func(n string) string { return "id(" + n + ")" }
 		}
+		if strings.HasPrefix(k.Form, "mix:") {
+			// each operand independently a literal (l), a variable (v) or a call whose value changes from its
+			// second evaluation on (s): a range expression denotes ONE sequence, so every operand is evaluated
+			// once; a lowering that re-evaluates the end or the step per iteration walks a different sequence.
+			decl = "seen := map[string]int{}\nid := func(name string, v int) int {\n\tseen[name]++\n\tif seen[name] > 1 {\n\t\treturn v + 1\n\t}\n\treturn v\n}\n_ = id\n"
+			kinds := k.Form[4:]
+			vals := map[string]int{"a": k.Start, "b": k.End, "c": k.Step}
+			w = func(n string) string {
+				switch kinds[strings.Index("abc", n)] {
+				case 'l':
+					return fmt.Sprint(vals[n])
+				case 's':
+					return "id(\"" + n + "\", " + n + ")"
+				}
+				return n
+			}
+		}
 		r := ""
 		if k.Start != omitted {
 			r = w("a")
@@ -141,7 +172,7 @@ func unitFor(k Case) progs.Unit {
 		}
 		for _, x := range vs {
 			if x.v != omitted {
-				decl += fmt.Sprintf("%s := %d\n", x.n, x.v)
+				decl += fmt.Sprintf("%s := %d\n_ = %s\n", x.n, x.v, x.n)
 			}
 		}
 		_ = lit
@@ -161,15 +192,25 @@ func stepClass(k Case) string {
 	return "positive-step"
 }
 
+// formKey: the part of a violation key that names the operand form. For mixed forms only the kind of the
+// step operand is kept (the recorded defect, a run-time negative step, depends on nothing else), so one
+// defect does not spread over 25 keys while a defect in another step class or context stays visible.
+func formKey(k Case) string {
+	if strings.HasPrefix(k.Form, "mix:") {
+		return "mix/step=" + k.Form[6:7]
+	}
+	return k.Form
+}
+
 func judge(k Case, r progs.UnitResult) *engine.Failure {
 	det := fmt.Sprintf("case=%+v\nsource:\n%s\nwant=%q got=%q", k, unitFor(k).XGo, r.RefOut, r.Out)
 	switch {
 	case r.CompileErr != "":
-		return &engine.Failure{Key: "does-not-compile:" + k.Context + "/" + k.Form + "/" + stepClass(k), What: "a range expression in this context is rejected by the compiler", Detail: r.CompileErr + "\n" + det}
+		return &engine.Failure{Key: "does-not-compile:" + k.Context + "/" + formKey(k) + "/" + stepClass(k), What: "a range expression in this context is rejected by the compiler", Detail: r.CompileErr + "\n" + det}
 	case r.BuildErr != "":
-		return &engine.Failure{Key: "generated-go-does-not-build:" + k.Context + "/" + k.Form, What: "the generated Go does not build", Detail: r.BuildErr + "\n" + det}
+		return &engine.Failure{Key: "generated-go-does-not-build:" + k.Context + "/" + formKey(k), What: "the generated Go does not build", Detail: r.BuildErr + "\n" + det}
 	case r.Out != r.RefOut:
-		return &engine.Failure{Key: "wrong-sequence:" + k.Context + "/" + k.Form + "/" + stepClass(k), What: "the range expression enumerates a different sequence than start:end:step denotes", Detail: det}
+		return &engine.Failure{Key: "wrong-sequence:" + k.Context + "/" + formKey(k) + "/" + stepClass(k), What: "the range expression enumerates a different sequence than start:end:step denotes", Detail: det}
 	}
 	return nil
 }
@@ -195,6 +236,27 @@ func main() {
 					for _, sp := range steps {
 						if c.Thorough() || (st == omitted || st%2 != 0 || st == 0) && en != 2 && en != -2 {
 							cases = append(cases, Case{cx.name, form, st, en, sp})
+						}
+					}
+				}
+			}
+		}
+		// mixed operand kinds on a smaller value grid: every combination of literal / variable / stateful call
+		for _, x := range "lvs" {
+			for _, y := range "lvs" {
+				for _, z := range "lvs" {
+					form := "mix:" + string(x) + string(y) + string(z)
+					if form == "mix:lll" || form == "mix:vvv" {
+						continue
+					}
+					for _, st := range []int{omitted, 0, 2} {
+						for _, en := range []int{-5, 7} { // long enough for a changed step or end to show
+							for _, sp := range []int{-2, 1, 2, omitted} {
+								if !c.Thorough() && (st == 2 || sp == 1) {
+									continue
+								}
+								cases = append(cases, Case{cx.name, form, st, en, sp})
+							}
 						}
 					}
 				}
@@ -242,7 +304,7 @@ func main() {
 	if notRun > 0 {
 		c.Cap(fmt.Sprintf("%d cases were queued behind a non-terminating unit and were not run", notRun))
 	}
-	c.Rule = fmt.Sprintf("complete grid start in {omitted,-3..3} x end in -3..3 x step in {-3,-2,-1,1,2,3,omitted} x %d contexts (for <-, for in, for := range, for = range, for <- if, list comprehension, comprehension with if) x {literal operands, variable operands, computed (call) operands}; quick thins start/end values; distinct_nontrivial = cases whose sequence is non-empty", len(contexts))
+	c.Rule = fmt.Sprintf("complete grid start in {omitted,-3..3} x end in -3..3 x step in {-3,-2,-1,1,2,3,omitted} x %d contexts (for <-, for in, for := range, for = range, for <- if, list comprehension, comprehension with if) x {literal operands, variable operands, computed (call) operands}, plus on a smaller value grid every mixture of literal / variable / stateful-call operands (a stateful call returns another value from its second evaluation on); quick thins start/end values; distinct_nontrivial = cases whose sequence is non-empty", len(contexts))
 	c.Assumptions = []string{"rangeref: step>0 counts up while i<end, step<0 counts down while i>end; omitted start = 0, omitted step = 1", "programs are compiled in-process by parser+cl+gogen, built by the Go toolchain in a scratch module (go 1.23) and run with GOMAXPROCS=1"}
 	c.Finish()
 }
